@@ -402,6 +402,11 @@ def _light_graph(path):
                 nodes[m.group(1)] = m.group(2)
                 if m.group(3):
                     init.append(m.group(1))
+    # TLC writes the dump from several workers: make the edge cover independent of that order
+    # (node identifiers are fingerprints of a randomly chosen polynomial: rank the nodes by their text)
+    rank = {n: i for i, n in enumerate(sorted(nodes, key=nodes.get))}
+    edges.sort(key=lambda e: (rank[e[0]], rank[e[2]]))
+    init.sort(key=rank.get)
     return tlc.Graph(init, nodes, edges)
 
 
@@ -705,7 +710,8 @@ def run(rep, tier, seed):
     fun_pl = ["closure", "cmethod"]
     five = ["N", "list", "opt", "dict", "tuple"]
     if quick:
-        intended = [(class_pl, ALL_HINTS, 7, 2, 2), (fun_pl, five, 7, 2, 2)]
+        intended = [(class_pl, ALL_HINTS, 7, 2, 2), (fun_pl, ["N", "list", "tuple"], 7, 2, 2),
+                    (fun_pl, ["opt", "dict"], 6, 2, 2)]
         graphs = [("cls", class_pl, ["N", "tuple", "Self"], 5, 2, 2), ("fun", fun_pl, ["N", "list"], 6, 2, 2),
                   ("fun2", ["closure"], ["N", "list"], 7, 2, 1)]
         sims = [(f"all{k}", ALL_PLACEMENTS, ALL_HINTS, 11, 4, 4, 100, k) for k in range(4)]
